@@ -510,6 +510,129 @@ fn dispatch_serde(ty: &str, operands: &[Vec<&str>]) -> Vec<String> {
     }
 }
 
+/// simba subset / superset conversions between dual numbers over different float widths
+fn conv_pair<A, B>(op: &str, operands: &[Vec<&str>]) -> Vec<String>
+where
+    A: Probe + simba::scalar::SubsetOf<B>,
+    B: Probe,
+{
+    let mut out = vec![];
+    match op {
+        // A is the subset type, B the superset type
+        "to_superset" => {
+            let a = A::rd(&mut Toks { v: &operands[0], i: 0 });
+            a.to_superset().wr(&mut out)
+        }
+        "from_superset" => {
+            let b = B::rd(&mut Toks { v: &operands[0], i: 0 });
+            match A::from_superset(&b) {
+                Some(a) => {
+                    out.push("some".into());
+                    a.wr(&mut out)
+                }
+                None => out.push("none".into()),
+            }
+        }
+        "from_superset_unchecked" => {
+            let b = B::rd(&mut Toks { v: &operands[0], i: 0 });
+            A::from_superset_unchecked(&b).wr(&mut out)
+        }
+        "is_in_subset" => {
+            let b = B::rd(&mut Toks { v: &operands[0], i: 0 });
+            wb(A::is_in_subset(&b), &mut out)
+        }
+        "roundtrip" => {
+            let a = A::rd(&mut Toks { v: &operands[0], i: 0 });
+            let b: B = a.to_superset();
+            match A::from_superset(&b) {
+                Some(a2) => {
+                    out.push("some".into());
+                    a2.wr(&mut out)
+                }
+                None => out.push("none".into()),
+            }
+        }
+        "convert" => {
+            // through nalgebra::convert on a 2-vector of dual numbers
+            let a = A::rd(&mut Toks { v: &operands[0], i: 0 });
+            let b: B = nalgebra::convert(a);
+            b.wr(&mut out)
+        }
+        _ => panic!("unknown conversion {op}"),
+    }
+    out
+}
+
+fn dispatch_conv(sub: &str, op: &str, sup: &str, operands: &[Vec<&str>]) -> Vec<String> {
+    macro_rules! p {
+        ($($a:expr, $b:expr => $ta:ty, $tb:ty;)*) => {
+            match (sub, sup) {
+                $(($a, $b) => return conv_pair::<$ta, $tb>(op, operands),)*
+                _ => panic!("conv: unknown pair {sub} {sup}"),
+            }
+        };
+    }
+    p! {
+        "Dual32", "Dual64" => Dual32, Dual64; "Dual64", "Dual32" => Dual64, Dual32; "Dual64", "Dual64" => Dual64, Dual64;
+        "Dual2_32", "Dual2_64" => Dual2_32, Dual2_64; "Dual2_64", "Dual2_32" => Dual2_64, Dual2_32;
+        "DualSVec32_2", "DualSVec64_2" => DualSVec32<2>, DualSVec64<2>; "DualSVec64_2", "DualSVec32_2" => DualSVec64<2>, DualSVec32<2>;
+        "DualDVec32", "DualDVec64" => DualDVec32, DualDVec64; "DualDVec64", "DualDVec32" => DualDVec64, DualDVec32;
+        "Dual2SVec32_2", "Dual2SVec64_2" => Dual2SVec32<2>, Dual2SVec64<2>; "Dual2SVec64_2", "Dual2SVec32_2" => Dual2SVec64<2>, Dual2SVec32<2>;
+        "Dual2DVec32", "Dual2DVec64" => Dual2DVec32, Dual2DVec64; "Dual2DVec64", "Dual2DVec32" => Dual2DVec64, Dual2DVec32;
+    }
+}
+
+/// plain floats as a subset of a dual type (SupersetOf<f32|f64> is implemented on the dual type)
+fn conv_float<A, B>(op: &str, operands: &[Vec<&str>]) -> Vec<String>
+where
+    A: FBits,
+    B: Probe + simba::scalar::SupersetOf<A>,
+{
+    let mut out = vec![];
+    match op {
+        "lift" => {
+            let a = A::rdf(operands[0][0]);
+            B::from_subset(&a).wr(&mut out)
+        }
+        "extract" => {
+            let b = B::rd(&mut Toks { v: &operands[0], i: 0 });
+            match b.to_subset() {
+                Some(a) => {
+                    out.push("some".into());
+                    out.push(a.wrf())
+                }
+                None => out.push("none".into()),
+            }
+        }
+        "extract_unchecked" => {
+            let b = B::rd(&mut Toks { v: &operands[0], i: 0 });
+            out.push(b.to_subset_unchecked().wrf())
+        }
+        "is_in_subset" => {
+            let b = B::rd(&mut Toks { v: &operands[0], i: 0 });
+            wb(b.is_in_subset(), &mut out)
+        }
+        _ => panic!("unknown float conversion {op}"),
+    }
+    out
+}
+
+fn dispatch_conv_float(sub: &str, op: &str, sup: &str, operands: &[Vec<&str>]) -> Vec<String> {
+    macro_rules! p {
+        ($($a:expr, $b:expr => $ta:ty, $tb:ty;)*) => {
+            match (sub, sup) {
+                $(($a, $b) => return conv_float::<$ta, $tb>(op, operands),)*
+                _ => panic!("conv: unknown pair {sub} {sup}"),
+            }
+        };
+    }
+    p! {
+        "f32", "Dual64" => f32, Dual64; "f64", "Dual64" => f64, Dual64; "f64", "Dual32" => f64, Dual32; "f32", "Dual2_64" => f32, Dual2_64;
+        "f64", "DualSVec64_2" => f64, DualSVec64<2>; "f32", "DualDVec64" => f32, DualDVec64; "f64", "Dual2DVec32" => f64, Dual2DVec32;
+        "f64", "Dual2SVec64_2" => f64, Dual2SVec64<2>; "f32", "Dual32" => f32, Dual32; "f64", "Dual2_64" => f64, Dual2_64;
+    }
+}
+
 fn main() {
     std::panic::set_hook(Box::new(|_| {}));
     let args: Vec<String> = std::env::args().collect();
@@ -533,6 +656,10 @@ fn main() {
         let res = std::panic::catch_unwind(|| {
             if head[1] == "serde" {
                 dispatch_serde(head[2], &operands)
+            } else if head[1] == "conv" && (head[2] == "f32" || head[2] == "f64") {
+                dispatch_conv_float(head[2], head[3], head[4], &operands)
+            } else if head[1] == "conv" {
+                dispatch_conv(head[2], head[3], head[4], &operands)
             } else {
                 dispatch(head[1], head[2], head[3], &head[4..], &operands)
             }
